@@ -74,12 +74,17 @@ def directed_state(rng):
 
 
 def run(ctx):
+    _run_generator(ctx)
+    snapshot_repro(ctx)
+
+
+def _run_generator(ctx):
     ctx.level = "proof"
     ctx.assumptions += [
         "IEEE-754 binary64 arithmetic: sums/differences whose exact result is an integer multiple of 2^-48 of magnitude < 2^49 * 2^-48 are computed exactly (theorem doubles_exact shows every operation of the generator is of this kind, for every rounding function that is exact on that range)",
         "int_fast32_t / uint_fast32_t are the 64 bit types of this platform; seed & 0x7FFFFFFF is the non-negative remainder mod 2^31",
         "bulk draws (skip lines) are compared through a 64 bit polynomial hash of the bit patterns plus minimum and maximum; single draws (next lines) bit for bit",
-        "snapshot reproducibility of whole runs is not part of this check",
+        "snapshot reproducibility of whole runs (two real 1-thread runs byte-identical) is exercised as a replayable experiment, not proved",
     ]
     ok = ctx.obligations("CMacVerif.Props.C13", ["drv_c13"])
     h = vlib.build_harness("c13")
@@ -182,6 +187,80 @@ def run(ctx):
     for s, a, b in hist_of[:3]:
         ctx.sample({"ops": ops[a:a + 4], "impl": impl[a:a + 4]})
     return 0
+
+
+ION_PARAM = """SimulationBox:
+  anchor: [-5. pc, -5. pc, -5. pc]
+  sides: [10. pc, 10. pc, 10. pc]
+  periodicity: [false, false, false]
+DensityGrid:
+  type: Cartesian
+  number of cells: [8, 8, 8]
+DensitySubGridCreator:
+  number of subgrids: [%d, %d, %d]
+DensityFunction:
+  type: Homogeneous
+  density: 100. cm^-3
+  temperature: 8000. K
+Abundances:
+  helium: %s
+TemperatureCalculator:
+  do temperature calculation: true
+PhotonSourceDistribution:
+  type: SingleStar
+  position: [0. pc, 0. pc, 0. pc]
+  luminosity: 4.26e49 s^-1
+PhotonSourceSpectrum:
+  type: Planck
+  temperature: 40000. K
+TaskBasedIonizationSimulation:
+  number of photons: %d
+  number of iterations: %d
+  random seed: %d
+  diffuse field: %s
+DensityGridWriter:
+  type: AsciiFile
+  prefix: snap
+"""
+
+
+def snapshot_repro(ctx):
+    """Replayable experiment, NOT a theorem: two real single-thread task-based photoionization
+    runs of the same parameter file write byte-identical snapshots (and another seed does not)."""
+    import hashlib, os, shutil, tempfile
+    import simrun
+    binary = vlib.full_binary()
+    configs = [((2, 2, 2), "0.1", 5000, 3, 42, "true")]
+    if ctx.thorough:
+        configs += [((1, 1, 1), "0.", 3001, 2, 1, "false"), ((2, 1, 4), "0.1", 4999, 2, 2147483647, "true"), ((4, 2, 2), "0.05", 2000, 4, 0, "false")]
+    done = []
+    for (sub, he, nph, nit, seed, diffuse) in configs:
+        digests = []
+        for rep, sd in ((0, seed), (1, seed), (2, seed + 1)):
+            d = tempfile.mkdtemp(prefix="verif_c13_")
+            param = ION_PARAM % (sub[0], sub[1], sub[2], he, nph, nit, sd, diffuse)
+            res = simrun.run_sim(binary, param, ["--task-based"], threads=1, timeout=300, trace=False, workdir=d)
+            h = hashlib.sha256()
+            names = sorted(f for f in os.listdir(d) if f.startswith("snap"))
+            for f in names:
+                h.update(f.encode()); h.update(open(os.path.join(d, f), "rb").read())
+            shutil.rmtree(d, ignore_errors=True)
+            if res["rc"] != 0 or res["timed_out"] or not names:
+                ctx.violation("snapshot:run-failed", "task-based photoionization run failed (rc %s, %d snapshots): %s" % (res["rc"], len(names), res["log"][-300:]),
+                              {"param": param, "cmd": "CMacIonize --params run.param --task-based --threads 1"})
+                break
+            digests.append(h.hexdigest())
+        else:
+            ctx.count()
+            ctx.branch("snapshot-repro-run")
+            if digests[0] != digests[1]:
+                ctx.violation("snapshot:not-reproducible", "two single-thread runs of the same parameter file (seed %d) wrote different snapshots" % seed,
+                              {"param": ION_PARAM % (sub[0], sub[1], sub[2], he, nph, nit, seed, diffuse), "cmd": "CMacIonize --params run.param --task-based --threads 1 (twice; compare snap*.txt)"})
+            if digests[0] == digests[2]:
+                ctx.violation("snapshot:seed-ignored", "seeds %d and %d gave byte-identical snapshots" % (seed, seed + 1),
+                              {"param": ION_PARAM % (sub[0], sub[1], sub[2], he, nph, nit, seed, diffuse)})
+            done.append({"subgrids": sub, "seed": seed, "sha256": digests[0][:16]})
+    ctx.cov["snapshot_reproducibility_experiment"] = done
 
 
 def replay(ctx, path):
